@@ -5,7 +5,7 @@ import form
 import kinds
 from cfg import graph
 from common import Ob, OK, VIOLATED, UNDECIDED, AnalysisBroken
-from ir import fmt_term
+from ir import fmt_term, expand_calls
 
 THIS = ('this',)
 N_FIELD = ('field', 'n', THIS)
@@ -70,6 +70,15 @@ def unwrap_expect(t):
             t = t[2][0]
         else:
             break
+    return t
+
+
+def _orient(t):
+    """comparisons with the query key on the left: `first_key > key` -> `key < first_key`"""
+    if isinstance(t, tuple) and len(t) == 4 and t[0] == 'op' and t[1] in ('<', '>', '<=', '>='):
+        a, b = _strip_cast(t[2]) if False else t[2], t[3]
+        if b[0] == 'param' and a[0] != 'param':
+            return ('op', {'<': '>', '>': '<', '<=': '>=', '>=': '<='}[t[1]], b, a)
     return t
 
 
@@ -168,7 +177,7 @@ def rule_range_form(ctx, which, units=None):
             if not tri:
                 obs.append(Ob('RANGE-FORM', f, r, 'return {pos, lo, hi}', 'return value is not a three-field aggregate', UNDECIDED, arm='ret'))
                 continue
-            A, B, C = (norm_tparams(f.term(x, inline=True)) for x in tri)
+            A, B, C = (norm_tparams(expand_calls(f.unit, f.term(x, inline=True))) for x in tri)
             if not stable_inline(f, r):
                 obs.append(Ob('RANGE-FORM', f, r, 'lo/hi computed from the returned pos', 'pos is modified between the computation of lo/hi and the return', VIOLATED, arm='ret'))
                 continue
@@ -263,7 +272,8 @@ def rule_clamp(ctx, which, units=None):
                 lo_ok = hi_ok = False
                 K = ('param', keyname)
                 # the tests themselves
-                if t[0] == 'op' and len(t) == 4 and ((t[1] == '<' and t[2] == K and t[3] == FIRST_KEY) or (t[1] == '>' and t[2] == K and t[3] == ('field', 'last_key', THIS))):
+                tn = _orient(unwrap_expect(t))
+                if tn in (('op', '<', K, FIRST_KEY), ('op', '>', K, ('field', 'last_key', THIS))):
                     obs.append(Ob('CLAMP', f, u, 'out-of-domain test', fmt_term(t), OK, arm='domain-test'))
                     continue
                 for b in g.reach:
@@ -271,7 +281,7 @@ def rule_clamp(ctx, which, units=None):
                     if not c:
                         continue
                     ct = norm_tparams(f.term(c, inline=True))
-                    ct = unwrap_expect(ct)
+                    ct = _orient(unwrap_expect(ct))
                     fe = g.succ[b][1] if len(g.succ[b]) == 2 else None
                     te = g.succ[b][0] if len(g.succ[b]) == 2 else None
                     if fe is None or not pos:
@@ -600,7 +610,7 @@ def rule_window_form(ctx, which, units=None):
         for vid, d in f.defs.items():
             if d.get('param') or not d.get('init') or not d.get('decl') or not reachable(f, d['decl']):
                 continue
-            base, off = _split_base_offset(norm_tparams(f.term(d['init'], inline=False)))
+            base, off = _split_base_offset(norm_tparams(expand_calls(f.unit, f.term(d['init'], inline=False))))
             if base is None:
                 continue
             offl = [x for x in _locals_in(off)]
